@@ -1,6 +1,7 @@
 package main
 
 import (
+	"sort"
 	"fmt"
 	"go/types"
 	"strings"
@@ -366,6 +367,12 @@ func (g *FnGen) evalSel(env *Env, x *ESel) SVal {
 		if st.Field(i).Name() == x.F {
 			if isPtr {
 				key, srt := w.fieldKey(t, i)
+				if _, isStruct := types.Unalias(st.Field(i).Type()).Underlying().(*types.Struct); isStruct {
+					// a struct-valued field reached through a pointer denotes the embedded object (as FieldAddr does)
+					n := q("sub:" + key)
+					w.decl("sub:"+key, fmt.Sprintf("(declare-fun %s (Int) Int)\n(assert (forall ((x Int)) (! (=> (> x 0) (> (%s x) 0)) :pattern ((%s x)))))", n, n, n))
+					return SVal{Term{fmt.Sprintf("(%s %s)", n, b.S), "Int"}, types.NewPointer(st.Field(i).Type())}
+				}
 				return SVal{Term{fmt.Sprintf("(select %s %s)", g.hget(env.st, key).S, b.S), srt}, st.Field(i).Type()}
 			}
 			return SVal{Term{fmt.Sprintf("(%s %s)", w.structAcc(t, i), b.S), w.sortOf(st.Field(i).Type())}, st.Field(i).Type()}
@@ -737,24 +744,44 @@ func (g *FnGen) evalCall(env *Env, x *ECall) SVal {
 		id := fmt.Sprintf("%s#%d", key, k)
 		rs, ok := g.callRes[id]
 		if x.Fn == "called" {
-			if !ok {
+			if !ok || !g.tagInScope(g.callTag[id]) {
 				return SVal{Term{"false", "Bool"}, boolT}
 			}
 			return SVal{Term{g.callReach[id], "Bool"}, boolT}
-		}
-		if !ok {
-			env.fail("callresult: no call %s on the way to this point", id)
 		}
 		i := 0
 		if len(x.Args) > 2 {
 			fmt.Sscanf(x.Args[2].(*EInt).V, "%d", &i)
 		}
-		if i >= len(rs) {
-			env.fail("callresult: %s has %d results", id, len(rs))
-		}
 		var rt types.Type
 		if f := w.findFunc(key); f != nil && i < f.Signature.Results().Len() {
 			rt = f.Signature.Results().At(i).Type()
+		}
+		if !ok {
+			// not generated (yet): the call is in a block that is not on the way to this point
+			if rt == nil {
+				env.fail("callresult: no call %s on the way to this point", id)
+			}
+			rs = make([]Term, i+1)
+			rs[i] = Term{"", w.sortOf(rt)}
+		}
+		if i >= len(rs) {
+			env.fail("callresult: %s has %d results", id, len(rs))
+		}
+		if !ok || !g.tagInScope(g.callTag[id]) {
+			// the call is not on the way to this point: its result is an arbitrary value here
+			nm := q(fmt.Sprintf("nocall:%s:%d", id, i))
+			if g.nocall == nil {
+				g.nocall = map[string]bool{}
+			}
+			if !g.nocall[nm] {
+				g.nocall[nm] = true
+				saved := g.curTag
+				g.curTag = -1
+				g.declare(nm, rs[i].Sort)
+				g.curTag = saved
+			}
+			return SVal{Term{nm, rs[i].Sort}, rt}
 		}
 		return SVal{rs[i], rt}
 	case "seqeq":
@@ -872,6 +899,9 @@ type opaqueDef struct {
 	keys []string // heap components the body reads (transitively)
 	sort string
 	typ  types.Type
+	// definitional axiom
+	decls, args, sorts []string
+	body               string
 }
 
 // opaqueDef declares, once, an uninterpreted symbol for the predicate over (parameters, heap components read)
@@ -879,9 +909,29 @@ type opaqueDef struct {
 func (w *World) opaqueDef(g *FnGen, p *Pred) *opaqueDef {
 	if od, ok := w.opaques[p.Name]; ok {
 		if od == nil {
-			panic(specError("recursive opaque predicate " + p.Name))
+			panic(specError("recursive opaque predicate " + p.Name + " needs a declared result type: pred f(...) T = ..."))
 		}
 		return od
+	}
+	if p.Ret != "" {
+		// recursive definition: the set of heap components read is found by iteration (the provisional symbol of
+		// round n reads the components found in round n-1) until it is stable
+		rt, err := w.resolveType(p.Pkg, p.Ret)
+		if err != nil {
+			panic(specError(err.Error()))
+		}
+		var keys []string
+		for round := 0; round < 6; round++ {
+			w.opaques[p.Name] = &opaqueDef{name: q("opq:" + p.Name), keys: keys, sort: w.sortOf(rt), typ: rt}
+			od := w.opaqueDefBody(g, p)
+			if len(od.keys) == len(keys) {
+				w.opaques[p.Name] = od
+				w.declOpaque(p, od)
+				return od
+			}
+			keys = od.keys
+		}
+		panic(specError("heap footprint of recursive predicate " + p.Name + " does not stabilise"))
 	}
 	w.opaques[p.Name] = nil
 	defer func() {
@@ -889,6 +939,23 @@ func (w *World) opaqueDef(g *FnGen, p *Pred) *opaqueDef {
 			delete(w.opaques, p.Name)
 		}
 	}()
+	od := w.opaqueDefBody(g, p)
+	w.declOpaque(p, od)
+	w.opaques[p.Name] = od
+	return od
+}
+
+func (w *World) declOpaque(p *Pred, od *opaqueDef) {
+	if len(od.args) == 0 {
+		w.decl("opq:"+p.Name, fmt.Sprintf("(declare-const %s %s)\n(assert (= %s %s))", od.name, od.sort, od.name, od.body))
+		return
+	}
+	app := fmt.Sprintf("(%s %s)", od.name, strings.Join(od.args, " "))
+	w.decl("opq:"+p.Name, fmt.Sprintf("(declare-fun %s (%s) %s)\n(assert (forall (%s) (! (= %s %s) :pattern (%s))))",
+		od.name, strings.Join(od.sorts, " "), od.sort, strings.Join(od.decls, " "), app, od.body, app))
+}
+
+func (w *World) opaqueDefBody(g *FnGen, p *Pred) *opaqueDef {
 	// evaluate the body over bound parameters and bound heap arrays
 	sub := &FnGen{w: w, fn: g.fn, key: g.key, pkg: p.Pkg, vals: map[ssa.Value]Term{}, initHeap: map[string]Term{}, counters: map[string]int{},
 		assumptions: g.assumptions, params: map[string]SVal{}, symHeap: "hb:" + p.Name + ":"}
@@ -918,6 +985,7 @@ func (w *World) opaqueDef(g *FnGen, p *Pred) *opaqueDef {
 	if len(sub.lines) > 0 {
 		panic(specError("opaque predicate " + p.Name + " needs side assertions; not supported"))
 	}
+	sort.Strings(sub.symKeys)
 	od := &opaqueDef{name: q("opq:" + p.Name), keys: sub.symKeys, sort: body.Sort, typ: body.T}
 	for _, k := range od.keys {
 		hn := q(sub.symHeap + k)
@@ -925,13 +993,6 @@ func (w *World) opaqueDef(g *FnGen, p *Pred) *opaqueDef {
 		args = append(args, hn)
 		sorts = append(sorts, w.heapSort[k])
 	}
-	if len(args) == 0 {
-		w.decl("opq:"+p.Name, fmt.Sprintf("(declare-const %s %s)\n(assert (= %s %s))", od.name, od.sort, od.name, body.S))
-	} else {
-		app := fmt.Sprintf("(%s %s)", od.name, strings.Join(args, " "))
-		w.decl("opq:"+p.Name, fmt.Sprintf("(declare-fun %s (%s) %s)\n(assert (forall (%s) (! (= %s %s) :pattern (%s))))",
-			od.name, strings.Join(sorts, " "), od.sort, strings.Join(decls, " "), app, body.S, app))
-	}
-	w.opaques[p.Name] = od
+	od.decls, od.args, od.sorts, od.body = decls, args, sorts, body.S
 	return od
 }
